@@ -55,6 +55,9 @@ class C15Gen:
         return self.rng.choice(self.types)
 
     def pick_unit(self, model, t, want_registered=True):
+        leg = (self.cfg.get("legacy") or {}).get(t)
+        if leg and self.rng.random() < 0.3:
+            return self.rng.choice(leg)[0]
         reg = self.registered_units(model, t)
         if want_registered and reg:
             return self.rng.choice(reg)
@@ -340,6 +343,13 @@ class C15Gen:
         if registered is None:
             registered = rng.random() < 0.8
         t = self.pick_type()
+        leg = self.cfg.get("legacy") or {}
+        if leg and rng.random() < 0.25:
+            # the legacy spelling in use: values are built with it, and the database is asked about it
+            t = sorted(leg)[0]
+            lu = leg[t][0][0]
+            c = self.pick_cat(model, t, True)
+            return self.qop(rng.choice([["S", self.value(), lu, c], ["S", self.value(), lu, c], ["db", "CheckCategoryUnit", [c, lu]], ["db", "CheckQuantityTypeUnit", [t, lu]], ["Q", lu, c, "cap"], ["Q", lu, c, None], ["m", ["Q", lu, c, "cap"], "GetUnit", []], ["m", ["S", 1.0, lu, c], "GetUnit", []]]))
         u = self.pick_unit(model, t, registered)
         u2 = self.pick_unit(model, t, registered)
         c = self.pick_cat(model, t, registered)
@@ -623,6 +633,15 @@ class C15:
         if world == "W-POSC":
             info = W.posc_info()
             basis = W.draw_basis(rng, info, n_types=(2, 3), n_units=(2, 3), n_cats=(1, 2), exotic=0.1)
+            cfg["legacy"] = {}
+            if rng.random() < 0.35:
+                # a quantity type some of whose units still have a legacy spelling in circulation
+                # ('1000ft3' for 'Mcf', ...): the spelling is accepted wherever a unit is taken
+                leg, un, q = rng.choice(W.legacy_spellings(info))
+                if q not in [b[0] for b in basis] and info[q]["cats"]:
+                    others = [x for x in info[q]["units"] if x != un]
+                    basis[0] = (q, [un] + ([rng.choice(others)] if others else []), list(info[q]["cats"][:2]))
+                    cfg["legacy"] = {q: [[leg, un]]}
             pool = {}
             cats = []
             for q, us, cs in basis:
